@@ -666,3 +666,132 @@ def c10(work, tier, seed):
                        "the history used for repetition detection is read out at the end of a session by popping a fork of the engine's board to its root; sessions have random lengths, so every prefix length is sampled",
                        "only legal move lists are sent (the property quantifies over those)"]
     return rep.finish(work)
+
+
+# ----------------------------------------------------------------------------------------
+# the concurrent shell
+
+UCI_INV = ["NoPanic", "AtMostOneBest", "ReadyOk", "NoStaleBest"]
+
+
+def mc_uci(work, rep, tier, liveness):
+    """TLC on Uci.tla: the intended design satisfies the properties for every interleaving of the
+    bounded scripts; each deviation the code first had is rejected by the same model."""
+    quick = tier == "quick"
+    base = {"MaxCmds": 3 if quick else 4, "NS": 2, "MaxDepth": 2, "IdGuard": "TRUE", "StopOnOk": "TRUE", "ShutdownWaits": "TRUE", "TimerInLoop": "TRUE"}
+    cfg = vlib.cfg_text(spec="Spec", constants=base, invariants=UCI_INV, view="View")
+    r = vlib.tlc(work, "Uci", cfg, workers=vlib.NCPU, timeout=3300, heap="16g", name="Uci-safety")
+    vlib.need_tlc_ok(r, "Uci safety")
+    rep.add_tlc(r)
+    info = {"safety": {"states": r.distinct, "constants": base, "wall_s": round(r.wall, 1)}}
+    if liveness:
+        lb = dict(base, MaxCmds=2 if quick else 3)
+        cfg = vlib.cfg_text(spec="FairSpec", constants=lb, properties=["Answered", "StopAnswered", "LoopReturns"], view="View")
+        r = vlib.tlc(work, "Uci", cfg, workers=vlib.NCPU, timeout=3300, heap="16g", name="Uci-liveness")
+        vlib.need_tlc_ok(r, "Uci liveness")
+        rep.add_tlc(r)
+        info["liveness"] = {"states": r.distinct, "constants": lb, "wall_s": round(r.wall, 1)}
+    # non-vacuity: the deviations must be rejected
+    dev = [("IdGuard", "FALSE", ["NoStaleBest"], []), ("ShutdownWaits", "FALSE", ["NoPanic"], []),
+           ("StopOnOk", "FALSE", [], ["StopAnswered"]), ("TimerInLoop", "FALSE", [], ["StopAnswered"])]
+    rejected = []
+    for name, val, inv, props in dev:
+        if props and (not liveness or quick):
+            continue
+        c = dict(base, MaxCmds=3)
+        c[name] = val
+        cfg = vlib.cfg_text(spec="FairSpec" if props else "Spec", constants=c, invariants=inv, properties=props, view="View")
+        r = vlib.tlc(work, "Uci", cfg, workers=vlib.NCPU, timeout=1500, heap="8g", name="Uci-dev-" + name)
+        if r.ok:
+            raise Inconclusive("Uci.tla: deviation %s=%s is not rejected (vacuous property)" % (name, val))
+        rejected.append("%s=%s" % (name, val))
+    info["deviations_rejected"] = rejected
+    rep.extra["mc_uci"] = info
+
+
+def uci_scenarios(work, vh, rep, props, seed, tier, want_real=True):
+    quick = tier == "quick"
+    jobs = []
+    p = vlib.run_harness(work, vh, ["ucisched", "-mode", "directed", "-only", "list", "-out", work.path("list.ndjson")])
+    for name in p.stdout.split():
+        jobs.append(("dir-" + name, ["-mode", "directed", "-only", name]))
+    ns = 6 if quick else 16
+    for i in range(ns):
+        jobs.append(("stub%d" % i, ["-mode", "stub", "-seed", seed * 100 + i, "-n", 25 if quick else 400, "-delay", [0, 20, 50][i % 3], "-maxus", [100, 400, 1500][i % 3]]))
+    if want_real:
+        for i in range(4 if quick else 12):
+            jobs.append(("real%d" % i, ["-mode", "real", "-seed", seed * 100 + 50 + i, "-n", 8 if quick else 80, "-delay", 20]))
+
+    def one(job):
+        name, args = job
+        trace = work.path(name + ".ndjson")
+        p = vlib.run_harness(work, vh, ["ucisched"] + args + ["-out", trace], check=False, timeout=3000)
+        crash = None
+        if p.returncode != 0:
+            txt = (p.stdout + p.stderr)
+            if "panic:" in txt or "fatal error:" in txt:
+                crash = txt[-6000:]
+            else:
+                raise Inconclusive("ucisched %s failed: %s" % (name, txt[-2000:]))
+        # a crash leaves a scenario without its events line: drop it for validation
+        lines = open(trace).read().splitlines() if os.path.exists(trace) else []
+        if crash and lines and '"op":"scenario"' in lines[-1]:
+            last = lines[-1]
+            lines = lines[:-1]
+            open(trace, "w").write("\n".join(lines) + ("\n" if lines else ""))
+        else:
+            last = None
+        r = None
+        if lines:
+            r = vlib.validate_trace(work, "TraceUci", props, trace, timeout=3000, heap="4g")
+        return name, r, crash, last
+    results = vlib.run_many(one, jobs, workers=min(vlib.NCPU, 12))
+    tr = []
+    for name, r, crash, last in results:
+        if crash:
+            d = os.path.join(vlib.ROOT, "replay", rep.prop)
+            os.makedirs(d, exist_ok=True)
+            path = os.path.join(d, "crash-%s-seed%d.txt" % (name, seed))
+            open(path, "w").write("scenario: %s\n\n%s" % (last, crash))
+            if "C16" in props:
+                rep.fail_events["c16.crash"] = rep.fail_events.get("c16.crash", 0) + 1
+                rep.violations.append(("c16.crash", path))
+        if r is not None:
+            tr.append(r)
+            n = r.nlines // 2
+            rep.traces += n
+            for note in r.notes:
+                rep.counters({note: 1})
+            rep.counters({"scenarios:" + name.rstrip("0123456789"): n})
+    if tr:
+        rep.sample(vlib.read_line(tr[0].trace, 1)[:800])
+        rep.sample(vlib.read_line(tr[0].trace, 2)[:1500])
+    vlib.absorb_trace_results(rep, tr)
+    answered = sum(v for k, v in rep.cov.items() if k.startswith("scenario|") and not k.endswith("best=0"))
+    if answered < 5:
+        raise Inconclusive("UCI scenarios: too few answered searches (%d)" % answered)
+
+
+@check("C16")
+def c16(work, tier, seed):
+    rep = Report("C16", tier, seed)
+    vh = vlib.build_harness(work)
+    mc_uci(work, rep, tier, liveness=False)
+    uci_scenarios(work, vh, rep, ["C16"], seed, tier)
+    rep.assumptions = ["schedules are perturbed only by delaying goroutines at hook points (always a legal schedule); the sections whose order defines 'superseded' (command dequeue, ensureInactive, go activation, completion CAS and its sends) are serialised by the harness, so their recorded order is the real one",
+                       "a go is superseded when the loop starts processing a later position / go / ucinewgame; a bestmove is attributed to the completion that won the compare-and-swap",
+                       "a panic in any goroutine kills the scenario process: reported as c16.crash with the scenario and the Go panic trace",
+                       "Halt waits for the first iteration by design; a gated stub search's first iteration is released when the loop waits for it"]
+    return rep.finish(work)
+
+
+@check("C04")
+def c04(work, tier, seed):
+    rep = Report("C04", tier, seed)
+    vh = vlib.build_harness(work)
+    mc_uci(work, rep, tier, liveness=True)
+    uci_scenarios(work, vh, rep, ["C04"], seed, tier)
+    rep.assumptions = ["legality of a bestmove is judged by Chess!Legal in the game the last position command describes (oracle built in TLA+ from the command text), at the moment the completion was decided",
+                       "'answered' is judged at quiescence (every search goroutine exited or parked at a stub gate, every forwarder exited, loop idle)",
+                       "real engines: morlock (hash on/off), TUROCHAMP, SARGON, BERNSTEIN with noise and books on/off, depths 1-2, movetime, clocks, infinite+stop"]
+    return rep.finish(work)
